@@ -322,7 +322,13 @@ func (s *socket) onDrain() {
 func (s *socket) MaybeUpgrade(transport transports.Transport) {
 	socket_log.Debug(`might upgrade socket transport from "%s" to "%s"`, s.Transport().Name(), transport.Name())
 
-	s.upgrading.Store(true)
+	// the callers' "not upgrading yet" test and this flag are not one step: of two
+	// candidates arriving together only the one that sets the flag is entertained
+	if !s.upgrading.CompareAndSwap(false, true) {
+		socket_log.Debug("transport has already been trying to upgrade")
+		transport.Close()
+		return
+	}
 
 	var check, cleanup func()
 	var onPacket, onError, onTransportClose, onClose events.Listener
